@@ -65,7 +65,8 @@ def main():
                 shutil.copy(d, dst)
                 pkgdir = "./" + os.path.dirname(rel) if os.path.dirname(rel) else "."
                 rx = "^(" + "|".join(tests) + ")$"
-                rc, o = sh(f"go test -vet=off -count=1 -timeout 20m -run '{rx}' {pkgdir}/", cwd=wt, timeout=1500)
+                flags = "-race" if (name.startswith("C16") or os.environ.get("DEMO_RACE")) else ""
+                rc, o = sh(f"go test {flags} -vet=off -count=1 -timeout 20m -run '{rx}' {pkgdir}/", cwd=wt, timeout=1500)
                 res.append((rc, o[-600:]))
             return res
         def rm_demos():
